@@ -133,6 +133,9 @@ def setup_config(
         # set 'restarted_from'
         curr["restarted_from"] = config["current"]["cstep"]
 
+        # drop what an interrupted step left in the data file
+        trim_data_file(config)
+
         # check active paths:
         load_dir = config["simulation"].get("load_dir", "trajs")
         for act in config["current"]["active"]:
@@ -263,6 +266,35 @@ def check_config(config: dict) -> None:
                         + " settings of one of the engines in"
                         + " 'infretis.mdp'!"
                     )
+
+
+def trim_data_file(config: dict) -> None:
+    """Remove rows that a step interrupted before its restart file left.
+
+    The data row of a replaced path is appended before the restart file is
+    rewritten. If the run stops in between, the path is still active in the
+    restart file and the step is redone, so its row (or an unfinished last
+    line) must not stay in the data file.
+
+    Args
+        config: the configuration dictionary
+    """
+    data_file = config["output"].get("data_file", "")
+    if not os.path.isfile(data_file):
+        return
+    active = {str(act) for act in config["current"]["active"]}
+    with open(data_file, encoding="utf-8") as read:
+        lines = read.readlines()
+    keep = []
+    for line in lines:
+        words = line.split()
+        stale = words and not line.startswith("#") and words[0] in active
+        if line.endswith("\n") and not stale:
+            keep.append(line)
+    if keep != lines:
+        with open(data_file + ".tmp", "w", encoding="utf-8") as write:
+            write.writelines(keep)
+        os.replace(data_file + ".tmp", data_file)
 
 
 def write_header(config: dict) -> None:
